@@ -9,8 +9,8 @@ package hsim
 // with what the same call produces alone (computed afterwards, sequentially).
 
 import (
-	"context"
 	"bytes"
+	"context"
 	"fmt"
 	"reflect"
 	"strings"
